@@ -576,6 +576,11 @@ def hostile_catalogue(rng, x_triple, x_compact, others):
     vfn('v-port-zero', lambda s, m: {b'token': tok, b'p': 1, m['key']: [compact_addr('5.5.5.5', 0, nid('z'))], b'contacts': others()[:3]})
     vfn('v-port-low', lambda s, m: {b'token': tok, b'p': 1, m['key']: [compact_addr('5.5.5.5', 80, nid('z'))] + fresh_compacts(rng, 3)})
     vfn('v-private-ip', lambda s, m: {b'token': tok, b'p': 1, m['key']: fresh_compacts(rng, 2) + [compact_addr(ip, 3333, nid(ip)) for ip in RESERVED_IPS]})
+    # one not-public address per reply, next to well-formed ones (a reply with several bad ones is dropped for the first of them):
+    # every range the statement's "public" excludes, at its first address, and multicast / reserved / broadcast
+    for ip in ('0.0.0.0', '10.0.0.1', '100.64.0.0', '127.0.0.1', '169.254.1.1', '172.16.0.0', '172.31.255.255', '192.168.0.1', '192.88.99.1',
+               '224.0.0.251', '239.255.255.250', '240.0.0.1', '255.255.255.255'):
+        vfn('v-one-' + ip, lambda s, m, ip=ip: {b'token': tok, b'p': 1, m['key']: fresh_compacts(rng, 2) + [compact_addr(ip, 3333, nid(ip))]})
     vfn('v-id-length', lambda s, m: {b'token': tok, b'p': 1, m['key']: [compact_addr('5.5.5.5', 3333, b'\x02' * 47), compact_addr('5.5.5.6', 3333, b'\x02' * 49)]})
     vfn('v-duplicates', lambda s, m: {b'token': tok, b'p': 1000000, m['key']: fresh_compacts(rng, 1) * 8})
     dup_pages = fresh_compacts(rng, 8)
